@@ -101,18 +101,20 @@ Section Closure.
       - intros r; destruct r; [apply P_ret|exact IH].
     Qed.
 
-    Lemma P_cleanup_loop : forall fuel last, P (cleanup_loop crun fuel last).
+    Lemma P_cleanup_loop inner : forall fuel last, P (cleanup_loop crun inner fuel last).
     Proof.
       induction fuel as [|f IH]; intros last; cbn [cleanup_loop]; [apply P_throw|].
       apply P_bind; [apply P_pop_cleanup|intros c].
       destruct c as [c|]; [|apply P_ret].
       apply P_try; [apply P_crun|]. intros [v|e]; [apply IH|].
       destruct e; try apply IH.
-      - apply P_bind; [destruct (internal_msg m); pa|intros _].
-        apply P_bind; [apply P_note_skip|intros; apply IH].
+      - destruct (inner && internal_msg m).
+        + apply P_bind; [apply P_mark_dirty|intros _; apply IH].
+        + apply P_bind; [destruct (internal_msg m); pa|intros _].
+          apply P_bind; [apply P_note_skip|intros; apply IH].
       - apply P_throw.
     Qed.
-    Lemma P_cleanup : P (cleanup LF crun).
+    Lemma P_cleanup inner : P (cleanup LF crun inner).
     Proof.
       unfold cleanup. apply P_bind; [apply P_begin_cleanup|intros _].
       apply P_bind; [apply P_cleanup_loop|intros r].
@@ -133,9 +135,10 @@ Section Closure.
       apply P_try; [apply P_try; [exact Hb|apply P_custom_end]|intros r].
       unfold custom_handler.
       assert (H : P (
-                   c <- cleanup LF crun ;;
+                   c <- cleanup LF crun true ;;
                    t0 <- get_ts ;;
                    match c, r with
+                   | Some (XInvalid m), _ => match failed t0 with Some _ => throw (XInvalid m) | None => ret None end
                    | Some e, Err (XInvalid m) => _ <- (if internal_msg m then mark_dirty else ret tt) ;; throw e
                    | Some e, _ => throw e
                    | None, Ok v => ret (Some v)
@@ -144,7 +147,7 @@ Section Closure.
                    end)).
       { apply P_bind; [apply P_cleanup|intros c].
         apply P_bind; [apply P_get_ts|intros t0].
-        destruct c as [e|]; destruct r as [v|e']; pa; destruct e'; pa; try (destruct (internal_msg m); pa); destruct (failed t0); pa. }
+        destruct c as [[]|]; destruct r as [v|[]]; pa; try (destruct (failed t0); pa); try (destruct (internal_msg _); pa). }
       destruct r as [v|[]]; try exact H. apply P_throw.
     Qed.
 
@@ -228,7 +231,7 @@ Section Closure.
     - apply P_bind; [apply P_exec|intros; apply P_failOnError].
     - intros r. unfold check_handler.
       assert (H : P (_ <- (match r with Err (XInvalid m) => if internal_msg m then mark_dirty else ret tt | _ => ret tt end) ;;
-          c <- cleanup LF (exec geom LF lvl) ;;
+          c <- cleanup LF (exec geom LF lvl) false ;;
           t <- get_ts ;;
           let r' := match c with
                     | Some e => Err e
